@@ -12,6 +12,14 @@ import (
 
 type loopFunc func(s *state, key string) data.Value
 
+// A loop keeps its position in the scope, next to its variable, under the
+// variable's name plus one of these suffixes. (With a blank in them: no variable
+// of a template can have such a name and hide them.)
+const (
+	loopIndexSuffix     = " index"
+	loopLastIndexSuffix = " lastIndex"
+)
+
 var loopFuncs = map[string]loopFunc{
 	"index":   funcIndex,
 	"isFirst": funcIsFirst,
@@ -19,16 +27,16 @@ var loopFuncs = map[string]loopFunc{
 }
 
 func funcIndex(s *state, key string) data.Value {
-	return s.context.lookup(key + "__index")
+	return s.context.lookup(key + loopIndexSuffix)
 }
 
 func funcIsFirst(s *state, key string) data.Value {
-	return data.Bool(s.context.lookup(key+"__index").(data.Int) == 0)
+	return data.Bool(s.context.lookup(key+loopIndexSuffix).(data.Int) == 0)
 }
 
 func funcIsLast(s *state, key string) data.Value {
 	return data.Bool(
-		s.context.lookup(key+"__index").(data.Int) == s.context.lookup(key+"__lastIndex").(data.Int))
+		s.context.lookup(key+loopIndexSuffix).(data.Int) == s.context.lookup(key+loopLastIndexSuffix).(data.Int))
 }
 
 // Func represents a Soy function that may be invoked within a Soy template.
